@@ -16,9 +16,12 @@ def run(ctx, replay):
     if thorough:
         tr = walcommon.run_wal(ctx, ["--histories", 400, "--ops", 120, "--images", 10], "g")
         walcommon.run_wal(ctx, ["--histories", 0, "--big", 6], "big")
+        walcommon.run_wal(ctx, ["--histories", 0, "--groupconc", 60], "groupconc")
     else:
         tr = walcommon.run_wal(ctx, ["--histories", 60, "--ops", 80, "--images", 2], "g")
         walcommon.run_wal(ctx, ["--histories", 0, "--big", 1], "big")
+        # one thread consumes while another one acknowledges on the same group, gated at every group-meta store
+        walcommon.run_wal(ctx, ["--histories", 0, "--groupconc", 10], "groupconc")
     vcore.corrupt_selftest(ctx, "WALQueueTrace", "WALQueueTrace.cfg", tr, walcommon.mutate_proj, "a message reads back other bytes")
 
     def bump_ack(lines):
@@ -34,6 +37,6 @@ def run(ctx, replay):
         return None
     vcore.corrupt_selftest(ctx, "WALQueueTrace", "WALQueueTrace.cfg", tr, bump_ack, "a group's acknowledged position +1")
     ctx.assumptions += [
-        "operations of one history are issued sequentially (consume and ack on one group are serialised by the group's lock in the code)",
+        "operations of one history are issued sequentially, except the groupconc histories: one consuming and one acknowledging thread on one group, gated at every store into the group's meta page (the calls are serialised by the group's lock in the code; the Op event of a call is emitted at its first store)",
         "explicit index resets: only the forward reset is part of the model (the property excludes resets)",
     ]
